@@ -460,7 +460,7 @@ End Fixed.
 
 Section Overlap.
 Context {A : Type}.
-Context (data : list A) (mx : option Z) (W H : Z) (HH : 1 <= H) (HHW : H < W).
+Context (data : list A) (mx : option Z) (W H : Z) (HH : 1 <= H) (HHW : H <= W).
 Local Notation v := (vis data mx).
 
 (** Block [i], with the existence condition in elementary form. *)
@@ -620,7 +620,7 @@ Qed.
 
 Section OverlapClosed.
 Context {A : Type}.
-Context (v : list A) (W H : Z) (HH : 1 <= H) (HHW : H < W).
+Context (v : list A) (W H : Z) (HH : 1 <= H) (HHW : H <= W).
 
 Lemma overlap_block_some k :
   0 <= k ->
@@ -633,7 +633,7 @@ Qed.
 End OverlapClosed.
 
 Lemma ob_eq {A} (data : list A) mx W H i :
-  1 <= H -> H < W ->
+  1 <= H -> H <= W ->
   ob data mx W H i = overlap_block (vis data mx) W H (Z.of_nat i).
 Proof.
   intros HH HHW. unfold overlap_block.
@@ -669,9 +669,9 @@ Proof.
   apply InvF_init; reflexivity.
 Qed.
 
-(** C10, overlapping reader, 1 <= H < W: block k starts at sample k*H, has W
+(** C10, overlapping reader, 1 <= H <= W (H = W: hop_dur < block_dur with the same number of samples): block k starts at sample k*H, has W
     samples except possibly the last, then None forever. *)
-Theorem C10_overlap : forall S (data : list S) W H rec mx k, 1 <= H -> H < W ->
+Theorem C10_overlap : forall S (data : list S) W H rec mx k, 1 <= H -> H <= W ->
   snd (reads (mk_reader data W (Some H) rec mx) k)
   = map (fun i => overlap_block (vis data mx) W H (Z.of_nat i)) (seq 0 k).
 Proof.
@@ -682,7 +682,7 @@ Proof.
 Qed.
 
 Theorem C10_overlap_full : forall S (v : list S) W H k,
-  1 <= H -> H < W -> 0 <= k -> k + 1 < nb_overlap (zlen v) W H ->
+  1 <= H -> H <= W -> 0 <= k -> k + 1 < nb_overlap (zlen v) W H ->
   zlen (zslice v (k * H) (k * H + W)) = W.
 Proof.
   intros S v W H k HH HHW Hk Hlt.
@@ -694,7 +694,7 @@ Proof.
 Qed.
 
 Theorem C10_overlap_last_nonempty : forall S (v : list S) W H k,
-  1 <= H -> H < W -> 0 <= k < nb_overlap (zlen v) W H ->
+  1 <= H -> H <= W -> 0 <= k < nb_overlap (zlen v) W H ->
   0 < zlen (zslice v (k * H) (k * H + W)).
 Proof.
   intros S v W H k HH HHW [Hk Hlt].
